@@ -36,6 +36,8 @@ Definition rank (p : pc) : nat :=
   | PRoll KCrt => 20 | PRoll _ => 19 | PEmit2 => 20
   | PCLoad => 31 | PCBody => 30 | PCStore => 29
   | PALoad1 => 31 | PAGet => 30 | PALoad2 => 29 | PAStore => 28
+  | PQLd false KMeta => 45 | PQLd false _ => 44 | PQLd true KMeta => 31 | PQLd true _ => 30 | PQCb => 29
+  | PQCa r a => 20 + 3 * (2 - r) + (2 - a) | PQSv KMeta => 18 | PQSv _ => 17 | PQRb => 16
   | PWait => 32
   | PUnlock _ => 10
   | PMLd Ph0 KKey => 120 | PMLd Ph0 KCrt => 119 | PMLd Ph0 KMeta => 118 | PMOcsp Ph0 => 116 | PMEmit Ph0 => 115
@@ -45,9 +47,10 @@ Definition rank (p : pc) : nat :=
 Definition is_mpc (p : pc) : bool := match p with PMLd _ _ | PMOcsp _ | PMEmit _ | PDone _ => true | _ => false end.
 Definition rem (th : thread) : nat :=
   (match c_prog (cfg th) with PManage => if is_mpc (tpc th) then 0 else 60 | _ => 0 end) + rank (tpc th).
-(** programs whose every path is finite: no doWithRetry loop, no CleanStorage body *)
+(** programs whose every path is finite: no doWithRetry loop, no CleanStorage body (the requests of
+    an account registration are retried at most twice) *)
 Definition finite_prog (c : tcfg) : bool :=
-  match c_prog c with PObtain false | PRenew false | PManage | PAri _ => true | _ => false end.
+  match c_prog c with PObtain false | PRenew false | PManage | PAri _ | PAcct _ => true | _ => false end.
 
 Lemma tstep_rem t th s f b th' s' e :
   twf th -> finite_prog (cfg th) = true -> tstep t th s f b = Some (th', s', e) -> rem th' < rem th.
@@ -59,7 +62,7 @@ Proof.
   all: repeat match goal with j : kind |- _ => destruct j | p : phase |- _ => destruct p end; simpl in *; try discriminate.
   all: repeat match goal with E : Some _ = Some _ |- _ => inversion E; subst; clear E end.
   all: repeat match goal with E : c_prog _ = _ |- _ => rewrite E in *; clear E end; simpl in *; try discriminate; try lia.
-  all: try (destruct (c_prog c) as [[|]|[|]| | |]; simpl in *; try discriminate; try lia; intuition (try discriminate; try lia)).
+  all: try (destruct (c_prog c) as [[|]|[|]| | | |]; try destruct lk; simpl in *; try discriminate; try lia; intuition (try discriminate; try lia)).
   all: try (intuition (try discriminate; try lia); fail).
   all: try (intuition (try discriminate; try congruence; try lia); fail).
 Qed.
